@@ -5,24 +5,24 @@ package main
 var propertyRules = map[string][]string{
 	"C01": {"LK1", "LK2", "LK3", "LK4", "LK5", "LK8", "LK6", "RD1", "RD2", "VD2", "VD3", "OU3", "WR3", "WR5", "ST1"},
 	"C02": {"LK1", "LK2", "LK3", "LK4", "LK5", "LK8", "LK6", "WR1", "WR2", "WR3", "WR5", "DT4", "VD1", "ST1"},
-	"C03": {"WR1", "WR2", "WR3", "WR4", "WR5", "WR6", "WR7", "LK1", "LK3"},
+	"C03": {"DT8", "WR1", "WR2", "WR3", "WR4", "WR5", "WR6", "WR7", "LK1", "LK3"},
 	"C04": {"WR3", "LK5", "LK8", "WR1", "VD1"},
 	"C05": {"DT5", "DT4", "DT6", "WR1", "LK2", "LK4", "OU4", "DT7"},
-	"C06": {"VD2", "VD3", "VD4", "VD1", "VD11", "VD12", "VD14", "DT5"},
+	"C06": {"VD2", "VD3", "VD4", "VD1", "VD11", "VD12", "VD14", "DT5", "LK4", "LK8"},
 	"C07": {"VD5", "VD16", "VD6", "DT7", "LK2", "LK3", "LK4", "LK5", "LK8", "VD1", "VD13", "VD15"},
-	"C08": {"RD1", "RD2", "RD4", "VD6", "WR5"},
+	"C08": {"RD1", "RD2", "RD4", "RD5", "VD6", "WR5"},
 	"C09": {"VD7", "RD4", "VD6", "VD8", "VD10", "LK4", "DT2", "DT5", "DT7", "WR1", "WR2", "WR4"},
 	"C10": {"VD1", "LK5", "LK8", "WR1", "WR3", "WR5", "WR7", "VD11", "VD12", "VD14"},
 	"C11": {"VD12", "VD13", "VD15", "VD1", "VD5", "VD10", "LK2", "LK3", "LK4", "LK5", "LK8", "WR1", "WR2", "OU3", "OU4"},
-	"C12": {"DT1", "DT2", "DT3", "DT4", "DT6", "WR2", "WR6", "LK6", "DT7"},
+	"C12": {"DT8", "DT1", "DT2", "DT3", "DT4", "DT6", "WR2", "WR6", "LK6", "DT7", "OU11"},
 	"C13": {"LK7", "WR1", "WR3", "WR6", "DT2"},
 	"C14": {"VD8", "VD7", "VD13", "DT5", "DT7"},
-	"C15": {"RD3", "RD2", "VD5", "VD16", "VD13"},
+	"C15": {"RD3", "RD2", "VD5", "VD16", "VD13", "VD8"},
 	"C16": {"OU1", "OU2", "OU3", "WR5", "VD1", "VD10", "VD11"},
 	"C17": {"OU4", "OU10", "WR6", "VD12", "VD15", "DT4", "DT6", "DT5", "VD13"},
 	"C18": {"ST1", "ST2", "ST3", "ST4", "LK1", "LK2", "WR1", "WR2"},
-	"C19": {"OU5", "OU6", "OU7", "OU8", "OU9", "RD4", "VD8", "DT1"},
-	"C20": {"VD9", "VD1", "ST2", "DT4", "DT6", "DT5", "LK4", "WR5", "WR7"},
+	"C19": {"RD5", "OU5", "OU6", "OU7", "OU8", "OU9", "OU11", "RD4", "VD8", "DT1"},
+	"C20": {"OU12", "VD9", "VD1", "ST2", "DT4", "DT6", "DT5", "LK4", "WR5", "WR7"},
 }
 
 // propertyScope: which clauses are decided and which are not (repeated in MANIFEST level_note).
